@@ -16,6 +16,9 @@ VERIF = os.path.dirname(os.path.dirname(os.path.abspath(__file__)))
 
 
 def main():
+    if "--help" in sys.argv or "-h" in sys.argv:
+        print(__doc__)
+        return 0
     ids = [a for a in sys.argv[1:] if not a.startswith("--")]
     tier = "thorough" if "--thorough" in sys.argv else "quick"
     sdir = os.path.join(VERIF, "seeded")
